@@ -17,7 +17,7 @@
      locktab <n> {g:<E|S>:<ofd>:<ino> | u:<ofd>:<ino>}..
                                           -> ok <grants> | reject <index> <conflicting holders>
                                              (can_grant / drop of the model's flock table)
-     replay <ninodes> <file>.. <nclients> {<ino> <flags> <ok|err> <nops> <op>..}.. <nevents> {<client>:<kind>}..
+     replay <full|prefix> <ninodes> <file>.. <nclients> {<ino> <flags> <ok|err> <nops> <op>..}.. <nevents> {<client>:<kind>}..
                                           -> ok <final file>..  |  mismatch <event> <text>
         an observed history replayed through the interleaved semantics (init_state/exec):
         op = r:<data> | p:<off>:<data> | w:<data> | t:<size>; kind = open | flock<arg> | io | close
@@ -103,6 +103,9 @@ let op_kind = function
   | OOpen _ -> "open" | OFlock h -> "flock" ^ string_of_int (int_of_n h) | OClose -> "close"
   | OMark _ -> "mark" | _ -> "io"
 let replay toks =
+  (* mode "prefix": the events are a prefix of the history, clients need not have finished *)
+  let prefix = (List.hd toks = "prefix") in
+  let toks = List.tl toks in
   let ni = int_of_string (List.hd toks) in
   let (inits, toks) = take ni (List.tl toks) [] in
   let inits = Array.of_list (List.map file_of inits) in
@@ -124,8 +127,12 @@ let replay toks =
   let (events, _) = take ne (List.tl !toks) [] in
   let s = ref (init_state cfg f) in
   let result = ref "" in
+  let t0 = Sys.time () in
   (try
     List.iteri (fun idx ev ->
+      (* self-imposed CPU budget: an abandoned model process must not spin for ever *)
+      if idx land 63 = 0 && Sys.time () -. t0 > 100.0 then begin
+        result := "MODEL-TIMEOUT cpu budget of the replay request exhausted at event " ^ string_of_int idx; raise Exit end;
       match String.split_on_char ':' ev with
       | [c; kind] ->
           let ci = int_of_string c in
@@ -155,7 +162,7 @@ let replay toks =
           let got = (match r with ResOk -> "ok" | ResErr -> "err" | ResData m -> "readmismatch:" ^ hex_of_bytes m) in
           if got <> expect && !result = "" then
             result := Printf.sprintf "mismatch -1 client %d: observed outcome %s, model %s" ci expect got
-      | _ -> if !result = "" then result := Printf.sprintf "mismatch -1 client %d has not finished in the model" ci) clients
+      | _ -> if !result = "" && not prefix then result := Printf.sprintf "mismatch -1 client %d has not finished in the model" ci) clients
   with Exit -> ());
   if !result <> "" then !result else
   "ok " ^ String.concat " " (List.init ni (fun i -> file_s (!s.st_os.files (nat_of_int i))))
@@ -198,8 +205,10 @@ let () = serve (function
       (* replay of an observed flock history through the model's lock table *)
       let tab : (int, (nat * lkind) list) Hashtbl.t = Hashtbl.create 16 in
       let get i = try Hashtbl.find tab i with Not_found -> [] in
+      let t0 = Sys.time () in
       let rec go idx grants = function
         | [] -> "ok " ^ string_of_int grants
+        | _ when idx land 255 = 0 && Sys.time () -. t0 > 100.0 -> "MODEL-TIMEOUT cpu budget exhausted"
         | tok :: rest ->
             (match String.split_on_char ':' tok with
              | ["g"; k; c; i] ->
